@@ -72,6 +72,22 @@ def make_datasets(chk, quick, root):
         base = os.path.join(root, "ds%03d" % i)
         n = [2, 3, 8, 96][i] if i < 4 else None
         t = gadata.synth(base, "Test", "g0", rng, n=n, shape=shapes[i % 6] if layout == "test" else rng.choice(["flat", "phase"]), layout=layout)
+        if i % 3 == 1:
+            # the step field of the header is informative only (the shipped Test table and the documentation example carry a rounded
+            # one; the loaders recompute it from E_min, E_max and the number of samples): write a rounded / plainly different value
+            d = os.path.join(base, "data/dbd_gA/v1.0/Test/g0")
+            for fn in ("tab_ocdf.data", "tab_pdf.data"):
+                fp = os.path.join(d, fn)
+                if not os.path.exists(fp):
+                    continue
+                L = open(fp).read().split("\n")
+                for k, l in enumerate(L):
+                    tk = l.split()
+                    if tk and tk[0] in ("Probability", "CumulativeProbability") and len(tk) >= 5:
+                        tk[3] = "%.2g" % (float(tk[3]) * (1.0 if i % 2 else 0.875))
+                        L[k] = " ".join(tk)
+                open(fp, "w").write("\n".join(L))
+            t["header_step_field"] = "rounded"
         out.append((base, "Test", "g0", 1, t))   # both layouts have a p.d.f. file (rejection method) and a c.d.f. file
     # the four real names through the generator-level layout
     for nuc in ("Se82", "Nd150"):
